@@ -188,6 +188,8 @@ def check(ck: Check) -> None:
     from .c02 import r02_2
     ck.run("R02.2", "fees = sum over ALL included transactions of (inputs - outputs)", lambda: r02_2(ck))
     ck.run("R12.4", "found-block handler: adopt, then publish", lambda: r12_4(ck))
+    from .c09 import r09_8
+    ck.run("R09.8", "broadcast reaches every active peer (a failing peer does not end the fan-out)", lambda: r09_8(ck))
     from .c15 import r15_3
     ck.run("R15.3", "a fresh key is persisted before use (miner call sites)", lambda: r15_3(ck, only_prefix="skepticoin.mining."))
     ck.assume("that assembly succeeds on concrete pools is covered only through C13's premises (pool transactions are valid at the head and mutually compatible)")
